@@ -94,11 +94,11 @@ func ttRow(mag, r int, raw []byte) []byte {
 
 // TSSpec describes a transport stream to synthesise.
 type TSSpec struct {
-	Charset     int      // national option code 0..7 of the subtitle page
+	Charset     int       // national option code 0..7 of the subtitle page
 	Pages       [][]TSRow // one entry per page instance; empty = "clear page"
-	Distractor  bool     // interleave another page of the same magazine with other text
-	Stuffing    bool     // add stuffing data units
-	WithPMTDesc bool     // PMT carries a teletext descriptor (needed for PID auto-detection)
+	Distractor  bool      // interleave another page of the same magazine with other text
+	Stuffing    bool      // add stuffing data units
+	WithPMTDesc bool      // PMT carries a teletext descriptor (needed for PID auto-detection)
 	Serial      bool
 	ExtraPES    int // number of non-teletext PES packets on another PID
 }
